@@ -267,6 +267,15 @@ func buildCorpus() {
 		corpus = append(corpus, corpusEntry{name: fmt.Sprintf("app-struct/mid/%d", i), value: &c20Mid{First: int32(i + 1), Skipped: "never written", Second: fmt.Sprintf("second-%d", i), Third: b, Last: i%2 == 0}, target: func() any { return &c20Mid{} }})
 		corpus = append(corpus, corpusEntry{name: fmt.Sprintf("app-struct/edges/%d", i), value: &c20Edges{Skipped: true, A: int64(100 + i), B: fmt.Sprintf("b-%d", i), Inner: c20Mid{First: 7, Second: "inner", Last: true}, C: int32(i), Tail: "never written"}, target: func() any { return &c20Edges{} }})
 	}
+	// values of types whose TagEncodeTTLV has a pointer receiver, handed over by value (not addressable). The library
+	// refuses them with a panic today, which keeps them out of the reference; a tree that accepts them must encode each
+	// one from its own content, whatever else is being encoded
+	for i := 0; i < 3; i++ {
+		bi := kmip.RequestBatchItem{Operation: kmip.OperationActivate, UniqueBatchItemID: []byte{byte(i), 7}, RequestPayload: &payloads.ActivateRequestPayload{UniqueIdentifier: fmt.Sprintf("by-value-%d", i)}}
+		corpus = append(corpus, corpusEntry{name: fmt.Sprintf("by-value/batch-item/%d", i), value: bi, target: func() any { return &kmip.RequestBatchItem{} }})
+		cv := kmip.CredentialValue{UserPassword: &kmip.CredentialValueUserPassword{Username: fmt.Sprintf("user-%d", i), Password: "p"}}
+		corpus = append(corpus, corpusEntry{name: fmt.Sprintf("by-value/credential-value/%d", i), value: cv, target: func() any { return &kmip.CredentialValue{} }})
+	}
 	// values whose encoding panics half-way (negative interval after some content; a Go type the encoder does not
 	// support): the panic is the deterministic result of that call, and whatever the aborted call leaves behind
 	// (a half-written pooled buffer, a version) must not show in any later result
@@ -618,7 +627,7 @@ func c20SweepFloor(tier string) []*C20Sc {
 	}
 	pairs := [][2]string{{"escaped-text/0", "escaped-text/1"}, {"escaped-text/2", "escaped-text/0"}, {"get-response/1", "get-response/2"}, {"zoned-datetime/0", "zoned-datetime/1"}}
 	if tier == "thorough" {
-		pairs = append(pairs, [2]string{"zoned-message/2", "zoned-message/0"}, [2]string{"zoned-datetime/3", "zoned-datetime/2"}, [2]string{"escaped-text/1", "escaped-text/2"}, [2]string{"bare-cryptoparams/0", "bare-cryptoparams/1"}, [2]string{"value/0", "value/1"}, [2]string{"get-response/0", "get-response/3"}, [2]string{"get-response/2", "get-response/0"})
+		pairs = append(pairs, [2]string{"zoned-message/2", "zoned-message/0"}, [2]string{"by-value/batch-item/0", "by-value/batch-item/1"}, [2]string{"zoned-datetime/3", "zoned-datetime/2"}, [2]string{"escaped-text/1", "escaped-text/2"}, [2]string{"bare-cryptoparams/0", "bare-cryptoparams/1"}, [2]string{"value/0", "value/1"}, [2]string{"get-response/0", "get-response/3"}, [2]string{"get-response/2", "get-response/0"})
 	}
 	var out []*C20Sc
 	for _, pr := range pairs {
